@@ -343,4 +343,5 @@ if __name__ == "__main__":
                 p = subprocess.run(["/venv/bin/python", "-m", "vpbt", pid, "--tier", os.environ.get("TIER", "quick"), "--no-evidence"], cwd=VERIF, capture_output=True, text=True, env=dict(os.environ, VERIF_REPO=str(repo), VPBT_FOUND_DIR=str(SCR / "foundone")))
                 print(pid, p.returncode, [l[:200] for l in p.stdout.splitlines() if l.startswith("violation-detail")][:3])
         finally:
-            shutil.rmtree(SCR, ignore_errors=True)
+            shutil.rmtree(SCR / "wone", ignore_errors=True)
+            shutil.rmtree(SCR / "foundone", ignore_errors=True)
